@@ -1,4 +1,4 @@
-\* repaired model: chain 0..11 (+2), Retained 1, two-block batches, coalescing 2, min-age on, 5 operations, cancel/crash after any batch; exhaustive: 288 256 distinct states (1 287 184 generated), 12-30 s
+\* repaired model: chain 0..11 (+2), Retained 1, two-block batches, coalescing 2, min-age on, 5 operations, cancel/crash after any batch, event-filter windows of 4 blocks (lazy re-initialisation after a restart interleaved); exhaustive: 411 469 distinct states (1 961 752 generated), 19-43 s on 4 workers
 CONSTANTS
   MaxH = 13
   InitH = 11
